@@ -141,6 +141,17 @@ func genC17Doc(t *rapid.T) *c17Doc {
 }
 
 // expectedInternal is the internal document the caller asked for (keys in id order).
+// estimatedDeltaSize is the size of the canonical delta a create request for this document needs, give or take a few bytes
+// (a replace patch with the keys and services, an also-known-as patch, one commitment).
+func (d *c17Doc) estimatedDeltaSize() int {
+	internal, _ := d.expectedInternal()
+	patches := []interface{}{map[string]interface{}{"action": "replace", "document": map[string]interface{}{"publicKeys": internal["publicKey"], "services": internal["service"]}}}
+	if len(d.aka) > 0 {
+		patches = append(patches, map[string]interface{}{"action": "add-also-known-as", "uris": internal["alsoKnownAs"]})
+	}
+	return len(refJCS(map[string]interface{}{"patches": patches, "updateCommitment": strings.Repeat("E", 46)}))
+}
+
 func (d *c17Doc) expectedInternal() (map[string]interface{}, map[string][]byte) {
 	ed := map[string][]byte{}
 	doc := map[string]interface{}{}
@@ -285,11 +296,14 @@ func TestC17_LongForm(t *testing.T) {
 		}
 		res, err := v.Create(d.doc, opts...)
 		if err != nil {
-			if strings.Contains(err.Error(), "exceeds maximum") {
-				st.Exclude("create refused for size (1700-byte delta / 2500-byte operation limit of the long-form protocol)")
+			// the long-form protocol limits a delta to 1700 and an operation to 2500 bytes: a refusal is legitimate only for
+			// a document that is large by the harness' own estimate (the error text is not consulted)
+			if est := d.estimatedDeltaSize(); est > 1450 {
+				st.Exclude("create refused for a document whose delta is estimated above 1450 bytes (limit 1700 / 2500)")
 				return
+			} else {
+				t.Fatalf("C17 VDR.Create refused an acceptable document (estimated delta %d bytes): %v", est, err)
 			}
-			t.Fatalf("C17 VDR.Create refused an acceptable document: %v", err)
 		}
 		did := res.DIDDocument.ID
 		// structure: namespace ':' suffix ':' initial state
@@ -569,7 +583,7 @@ func TestC17_Concurrent(t *testing.T) {
 			opts := []vdrapi.DIDMethodOption{vdrapi.WithOption(longform.UpdatePublicKeyOpt, upd.Public()), vdrapi.WithOption(longform.RecoveryPublicKeyOpt, rec.Public())}
 			res, err := v.Create(d.doc, opts...)
 			if err != nil {
-				if strings.Contains(err.Error(), "exceeds maximum") {
+				if d.estimatedDeltaSize() > 1450 {
 					continue
 				}
 				t.Fatalf("C17 VDR.Create refused an acceptable document: %v", err)
